@@ -45,8 +45,8 @@ func kindsIn(doc []byte) map[directive.Enumeration]int {
 
 func runC18(ctx *Ctx) {
 	r := ctx.Rng.Fork()
-	banCorrespondence(ctx, r, ctx.Budget(20000, 500000))
-	includeBanCorrespondence(ctx, r, ctx.Budget(1500, 60000))
+	banCorrespondence(ctx, r.Fork(), ctx.Budget(20000, 500000))
+	includeBanCorrespondence(ctx, r.Fork(), ctx.Budget(1500, 60000))
 	n := ctx.Budget(120, 5000)
 	for i := 0; i < n && len(ctx.Violations) < 10; i++ {
 		m := GenModel(r)
@@ -127,6 +127,31 @@ func runC18(ctx *Ctx) {
 		rc := RunProject(can, false)
 		if rc.Err == nil || !strings.Contains(rc.Err.Msg, "not allowed") {
 			ctx.Violate(Violation{Kind: "wrong-output", Site: "banned directives", What: "INCLUDE is banned but the named file is looked at first: " + rc.Verdict(), Input: projectInput(can), Signature: "ban-include-read"})
+		}
+	}
+	// every kind, banned, directly followed by something that is itself an error (an INCLUDE of a missing file, an
+	// unknown keyword, a stray ")"): the ban must be what is reported, at the banned directive
+	lines := map[directive.Enumeration]string{
+		directive.Info: "INFO", directive.Server: "SERVER @s", directive.URL: "URL /u", directive.Get: "GET /g", directive.Post: "POST /g",
+		directive.Put: "PUT /g", directive.Patch: "PATCH /g", directive.Delete: "DELETE /g", directive.Type: "TYPE @t", directive.Enum: "ENUM @e",
+		directive.Macro: "MACRO @m", directive.Paste: "PASTE @m", directive.TAG: "TAG @g", directive.Include: "INCLUDE missing/canary2.jst",
+	}
+	for k, l := range lines {
+		for _, after := range []string{"INCLUDE missing/after.jst\n", "NOSUCHDIRECTIVE\n", ")\n", ""} {
+			doc := "JSIGHT 0.3\n" + l + "\n" + after
+			pr := Project{Files: map[string][]byte{"root.jst": []byte(doc)}, Root: "root.jst", Banned: []directive.Enumeration{k}}
+			res := RunProject(pr, false)
+			ctx.Cov.Count([]byte("directed "+doc), true)
+			ctx.Cov.Hit("ban: banned directive followed by another fault")
+			if res.Panic != "" {
+				continue
+			}
+			if res.Err == nil || !strings.Contains(res.Err.Msg, "not allowed") || int(res.Err.Index) != len("JSIGHT 0.3\n") {
+				in := projectInput(pr)
+				in["op"] = "ban"
+				ctx.Violate(Violation{Kind: "wrong-output", Site: "banned directives", What: fmt.Sprintf("banned %s followed by %q: expected 'not allowed' at the banned directive, got %s", k, after, res.Verdict()),
+					Input: in, Observed: res.Verdict(), Expected: "directive not allowed at index 11", Signature: "ban-location:" + k.String()})
+			}
 		}
 	}
 	_ = os.Remove
